@@ -49,6 +49,9 @@ type FProgram struct {
 	Schemas []string  `json:"schemas"`
 	Setup   [][]int   `json:"setup"` // rows (table, k0..k3) inserted by one initial transaction
 	Threads [][]FTran `json:"threads"`
+	// Admin: exclusive index builds issued by an extra goroutine while the
+	// transaction threads run: (table, column set, delay in microseconds)
+	Admin [][]int `json:"admin,omitempty"`
 }
 
 func genFProgram(t *rapid.T, o GenOpts) FProgram {
@@ -96,8 +99,17 @@ func genFProgram(t *rapid.T, o GenOpts) FProgram {
 		}
 		p.Threads = append(p.Threads, trans)
 	}
+	if gen.Chance(t, "hasadmin", 35) {
+		for i, n := 0, 1+gen.Uniform(t, "nadmin", 2); i < n; i++ {
+			p.Admin = append(p.Admin, []int{gen.Uniform(t, "t", nt), gen.Uniform(t, "cols", len(fAdminCols)), gen.Uniform(t, "delay", 1500)})
+		}
+	}
 	return p
 }
+
+// non-unique indexes only: they add no constraint, so the model's rules are
+// the same before and after the build
+var fAdminCols = [][]string{{"d"}, {"c", "d"}, {"d", "b"}, {"b", "d"}, {"d", "c", "a"}}
 
 // ---------------------------------------------------------------- recorded history
 
@@ -444,6 +456,23 @@ func RunF(p FProgram) *History {
 			}
 		}()
 	}
+	if len(p.Admin) > 0 {
+		wg.Add(1)
+		go func() {
+			defer wg.Done()
+			for _, a := range p.Admin {
+				time.Sleep(time.Duration(a[2]) * time.Microsecond)
+				cmd := fmt.Sprintf("alter %s create index(%s)", names[a[0]%len(names)], strings.Join(fAdminCols[a[1]%len(fAdminCols)], ","))
+				err := tryAdmin(db, cmd)
+				fr.mu.Lock()
+				hist.Notes = append(hist.Notes, fmt.Sprintf("admin %q -> %q", cmd, err))
+				fr.mu.Unlock()
+				if strings.Contains(err, "runtime error") || strings.Contains(err, "ASSERT") {
+					fr.fatal.Store("index build crashed: " + cmd + ": " + err)
+				}
+			}
+		}()
+	}
 	wg.Wait()
 	close(done)
 	hist.Trans = fr.trans
@@ -477,7 +506,7 @@ func RunF(p FProgram) *History {
 // ---------------------------------------------------------------- judging
 
 type FStats struct {
-	Writers, Overlapping, Conflicts, ReadTrans, Aborted int
+	Writers, Overlapping, Conflicts, ReadTrans, Aborted, IndexBuilds int
 }
 
 func rdOf(e *hEvent) *readRec {
@@ -546,7 +575,18 @@ func JudgeHistory(h *History) (viol *Violation, st FStats) {
 		}
 		names = append(names, strings.Fields(s)[1])
 	}
+	nBuilt := 0
+	for _, n := range h.Notes {
+		if strings.HasPrefix(n, "admin ") && strings.HasSuffix(n, `-> ""`) {
+			var cmd string
+			fmt.Sscanf(n, "admin %q", &cmd)
+			if err := tryAdmin(db, cmd); err == "" {
+				nBuilt++
+			}
+		}
+	}
 	w := loadWorld(db, names)
+	st.IndexBuilds = nBuilt
 
 	var writers []*hTran
 	for _, t := range h.Trans {
